@@ -175,10 +175,10 @@ def rule_A3(ctx):
         return r
     struct, field = slots[0]
     fns = [f for f in F.fns.values() if f["crate"] == "garnish_lang_compiler" and struct.split("::")[-1] in f.get("impl_self", "") and f["kind"] != "Closure"]
-    r.floor("Lexer methods", len(fns), 6)
+    r.floor("Lexer methods", len(fns), 3)
     findings, W, R, direct = analyse_lexer(F, fns, struct, field, r)
-    r.floor("functions that may write the error slot", len(W), 3)
-    r.floor("stores to the error slot", sum(len(v) for v in direct.values()), 5)
+    r.floor("functions that may write the error slot", len(W), 2)
+    r.floor("stores to the error slot", sum(len(v) for v in direct.values()), 2)
     for fn, inst, where, msg in findings:
         r.finding(fn, inst, where, msg)
     # public reader: lex() must consult the slot after the iteration
